@@ -97,10 +97,10 @@ func runC20(w *core.World, r *core.Report) {
 						if !ok {
 							continue
 						}
-						if k, isC := core.ConstInt(bo.Y); isC && k == 0 {
-							for _, s := range core.Sources(bo.X) {
+						if x0, op0, k, isC := core.CmpConst(bo); isC && k == 0 {
+							for _, s := range core.Sources(x0) {
 								if lc, ok := s.(*ssa.Call); ok && core.IsCallTo(lc, "builtin.len") {
-									switch bo.Op {
+									switch op0 {
 									case token.EQL:
 										noCode = append(noCode, core.EdgesWhere(bo, true)...)
 									case token.GTR, token.NEQ:
@@ -206,11 +206,11 @@ func runC20(w *core.World, r *core.Report) {
 			for _, bb := range in.Blocks {
 				for _, x := range bb.Instrs {
 					if bo, isBo := x.(*ssa.BinOp); isBo {
-						if k, isC := core.ConstInt(bo.Y); isC && k == 0 {
-							for _, s := range core.Sources(bo.X) {
+						if x0, op0, k, isC := core.CmpConst(bo); isC && k == 0 {
+							for _, s := range core.Sources(x0) {
 								if lc, isL := s.(*ssa.Call); isL && core.IsCallTo(lc, "builtin.len") {
 									if _, f, isF := core.LoadedField(lc.Call.Args[0]); isF && f == "Code" {
-										switch bo.Op {
+										switch op0 {
 										case token.EQL:
 											noCode = append(noCode, core.EdgesWhere(bo, true)...)
 										case token.GTR, token.NEQ:
